@@ -488,14 +488,17 @@ Proof.
   rewrite Forall_forall in HF. apply HF; exact Hq.
 Qed.
 
-Lemma fs_sim_pack U f s : FsRel f s -> fs_sim U f s SPackRefs.
+(* packing all reference files of a store (no HEAD among them) *)
+Lemma pack_core f x :
+  FsInv f -> loose_list (f_loose f) = Some x ->
+  let P := map pack_line (filter (fun p => is_hash (snd p)) x)
+           ++ map pack_line (packed_unseen (map fst x) (f_packed f)) in
+  let f' := mkFs (filter keeps_loose (f_loose f)) P (f_rest f) in
+  FsInv f' /\ forall k, fs_lookup f' k = fs_lookup f k.
 Proof.
-  intros HR. pose proof HR as [HI Hok Hr Hrest]. unfold fs_sim.
-  cbn [fs_step spec_sstep fst snd]. unfold fs_pack_refs.
-  destruct (fs_listing f HI) as [x [Hx [Hin [Hnd Hxin]]]]. rewrite Hx.
-  destruct x as [|p0 x']; [split; [exact HR|reflexivity]|].
-  rewrite (fi_packed f HI). cbn [fst snd]. split; [|reflexivity].
-  set (x := p0 :: x') in *. set (un := packed_unseen (map fst x) (f_packed f)) in *.
+  intros HI Hx0. cbn zeta.
+  destruct (fs_listing f HI) as [x1 [Hx [Hin [Hnd Hxin]]]]. rewrite Hx0 in Hx. injection Hx as <-.
+  set (un := packed_unseen (map fst x) (f_packed f)) in *.
   set (P := map pack_line (filter (fun p => is_hash (snd p)) x) ++ map pack_line un).
   assert (Hun : forallb (fun p => is_hash (snd p)) un = true).
   { apply forallb_forall. intros [k v] Hk. cbn [snd].
@@ -524,8 +527,8 @@ Proof.
       + intros k H1 H2. apply (Hdisj k); [|exact H2].
         apply in_map_iff in H1 as [q [Hq H1]]. apply filter_In in H1 as [H1 _].
         apply in_map_iff. exists q. split; assumption. }
-  constructor; [exact HI'|exact Hok| |exact Hrest].
-  intro k. rewrite (Hr k). apply opt_ext. intro v. symmetry. rewrite <- (Hin k v).
+  split; [exact HI'|].
+  intro k. apply opt_ext. intro v. rewrite <- (Hin k v).
   unfold fs_lookup at 1. cbn [f_loose f_packed]. rewrite (fm_get_filter_keeps _ k (fi_ok f HI)).
   rewrite in_app_iff, (Hxin k v).
   destruct (fm_get k (f_loose f)) as [[[h|t]|]|] eqn:El.
@@ -561,6 +564,70 @@ Proof.
       { apply (packed_lookup_In k h _ (fi_packed _ HI') (fi_nodup _ HI')). unfold P. apply in_or_app. right.
         apply (In_map_pack k h un Hun). exact H. }
       rewrite E. reflexivity.
+Qed.
+
+
+Lemma fs_lookup_del_head f k :
+  fs_lookup (mkFs (fm_del head_name (f_loose f)) (f_packed f) (f_rest f)) k =
+  if k =? head_name
+  then match packed_lookup k (f_packed f) with Some (Some h) => Some (RHash h) | _ => None end
+  else fs_lookup f k.
+Proof. unfold fs_lookup. cbn [f_loose f_packed]. rewrite fm_get_del. destruct (k =? head_name); reflexivity. Qed.
+
+Lemma fm_get_filter_koh (l : fmap (option refval)) k :
+  fm_ok l ->
+  fm_get k (filter keeps_loose_or_head l) =
+  if k =? head_name then fm_get k l else fm_get k (filter keeps_loose (fm_del head_name l)).
+Proof.
+  induction l as [|[n v] r IH]; intro Hok; [destruct (k =? head_name); reflexivity|].
+  apply fm_ok_inv in Hok as [Hok HF].
+  unfold fm_del in *. cbn [filter fst]. unfold keeps_loose_or_head at 1. cbn [fst].
+  destruct (n =? head_name) eqn:En; cbn [orb negb].
+  - apply N.eqb_eq in En; subst n. cbn [fm_get]. destruct (k =? head_name) eqn:Ek; [reflexivity|].
+    rewrite (IH Hok). rewrite ?Ek. reflexivity.
+  - cbn [filter]. fold (keeps_loose (n, v)). destruct (keeps_loose (n, v)); cbn [fm_get].
+    + destruct (k =? n) eqn:Ekn.
+      * apply N.eqb_eq in Ekn; subst k. rewrite En. reflexivity.
+      * rewrite (IH Hok). reflexivity.
+    + rewrite (IH Hok). destruct (k =? head_name) eqn:Ek; [|reflexivity].
+      apply N.eqb_eq in Ek; subst k. rewrite N.eqb_sym, En. reflexivity.
+Qed.
+
+Lemma fs_sim_pack U f s : FsRel f s -> fs_sim U f s SPackRefs.
+Proof.
+  intros HR. pose proof HR as [HI Hok Hr Hrest]. unfold fs_sim.
+  cbn [fs_step spec_sstep fst snd]. unfold fs_pack_refs.
+  set (fd := mkFs (fm_del head_name (f_loose f)) (f_packed f) (f_rest f)).
+  assert (HId : FsInv fd).
+  { destruct HI as [H1 H2 H3 H4]. constructor; cbn [fd f_loose f_packed]; try assumption.
+    - apply fm_ok_del; exact H1.
+    - intro k. rewrite fm_get_del. destruct (k =? head_name); [discriminate|apply H2]. }
+  destruct (fs_listing fd HId) as [x [Hx _]]. cbn [fd f_loose] in Hx. rewrite Hx.
+  destruct x as [|p0 x']; [split; [exact HR|reflexivity]|].
+  rewrite (fi_packed f HI). cbn [fst snd]. split; [|reflexivity].
+  destruct (pack_core fd (p0 :: x') HId Hx) as [HIc Hlk]. unfold fd in HIc, Hlk. cbn [f_loose f_packed f_rest] in HIc, Hlk.
+  set (P := map pack_line (filter (fun p => is_hash (snd p)) (p0 :: x'))
+            ++ map pack_line (packed_unseen (map fst (p0 :: x')) (f_packed f))) in *.
+  assert (HI' : FsInv (mkFs (filter keeps_loose_or_head (f_loose f)) P (f_rest f))).
+  { constructor; cbn [f_loose f_packed].
+    - apply fm_ok_filter. apply HI.
+    - intros k Hk. apply (fm_get_In k None _ (fm_ok_filter _ _ (fi_ok f HI))) in Hk.
+      apply filter_In in Hk as [Hk _]. apply (fm_get_In k None _ (fi_ok f HI)) in Hk.
+      exact (fi_nonempty f HI k Hk).
+    - exact (fi_packed _ HIc).
+    - exact (fi_nodup _ HIc). }
+  constructor; [exact HI'|exact Hok| |exact Hrest].
+  intro k. rewrite (Hr k). specialize (Hlk k). rewrite fs_lookup_del_head in Hlk.
+  unfold fs_lookup in *. cbn [f_loose f_packed] in *.
+  rewrite (fm_get_filter_koh _ k (fi_ok f HI)).
+  destruct (k =? head_name) eqn:Ek.
+  - destruct (fm_get k (f_loose f)) as [[v|]|] eqn:El; [reflexivity| |].
+    + exfalso. exact (fi_nonempty f HI k El).
+    + (* no HEAD file: whatever packed-refs says about the name is unchanged *)
+      assert (Hn : fm_get k (filter keeps_loose (fm_del head_name (f_loose f))) = None).
+      { rewrite (fm_get_filter_keeps _ k (fm_ok_del head_name _ (fi_ok f HI))), fm_get_del, Ek. reflexivity. }
+      rewrite Hn in Hlk. symmetry. exact Hlk.
+  - symmetry. exact Hlk.
 Qed.
 
 Lemma fs_sim_all U f s o : FsRel f s -> fs_ok f o = true -> fs_sim U f s o.
